@@ -4,6 +4,7 @@
 #include <hash.h>
 #include <streams.h>
 #include <serialize.h>
+#include <util/golombrice.h>
 #include "replay_util.h"
 #define BAD(...) do { rv::g_stats.real_violations++; if (rv::g_stats.real_violations <= 8) { std::printf("REAL-VIOLATION " __VA_ARGS__); std::printf("\n"); } } while (0)
 #define DIS(...) do { rv::g_stats.disagreements++; if (rv::g_stats.disagreements <= 8) { std::printf("DISAGREE " __VA_ARGS__); std::printf("\n"); } } while (0)
@@ -11,6 +12,19 @@ struct xFilter { unsigned char* vData; size_t vData_size; unsigned nHashFuncs, n
 extern "C" { extern unsigned g_hash[50]; void xc_CBloomFilter_insert(xFilter*); bool xc_CBloomFilter_contains(const xFilter*); }
 struct Raw { std::vector<unsigned char> data; unsigned nh, tweak; unsigned char flags; };
 static Raw raw(const CBloomFilter& f) { DataStream s; s << f; Raw r; s >> r.data >> r.nh >> r.tweak >> r.flags; return r; }
+struct xBW { unsigned char* buf; size_t nbits; }; struct xBR { const unsigned char* buf; size_t pos; };
+extern "C" { void xc_GolombRiceEncode(xBW*, uint8_t, uint64_t); uint64_t xc_GolombRiceDecode(xBR*, uint8_t); }
+static void test_golomb(rv::Rng& r)
+{
+    uint8_t P = r.below(3) ? 19 : (uint8_t)r.below(33); size_t cnt = 1 + r.below(5); std::vector<uint64_t> xs; for (size_t k = 0; k < cnt; k++) { uint64_t q = r.below(4) ? r.below(200) : 60 + r.below(10); xs.push_back((q << P) | (P ? (r.next() & ((1ULL << P) - 1)) : 0)); if (r.below(6) == 0) xs.back() = (64ULL << P) + r.below(3) - 1; }
+    std::vector<unsigned char> bytes; { VectorWriter vw(bytes, 0); BitStreamWriter<VectorWriter> bw(vw); for (auto x : xs) GolombRiceEncode(bw, P, x); bw.Flush(); }
+    std::vector<unsigned char> xb(bytes.size() + 64, 0); xBW xw{xb.data(), 0}; for (auto x : xs) xc_GolombRiceEncode(&xw, P, x); rv::g_stats.inputs++;
+    if ((xw.nbits + 7) / 8 != bytes.size() || memcmp(xb.data(), bytes.data(), bytes.size())) DIS("GolombRiceEncode P=%u", P);
+    // reference encoding: q ones, a zero, P bits of the remainder, MSB first
+    std::vector<unsigned char> ref; size_t nb = 0; auto put = [&](int bit) { if ((nb & 7) == 0) ref.push_back(0); if (bit) ref.back() |= (unsigned char)(0x80 >> (nb & 7)); nb++; }; for (auto x : xs) { for (uint64_t k = 0; k < (x >> P); k++) put(1); put(0); for (int k = P - 1; k >= 0; k--) put((x >> k) & 1); }
+    if (ref != bytes) BAD("GolombRiceEncode(P=%u) of %zu values differs from the reference bit string (BIP158: quotient in unary, a zero, P remainder bits)", P, xs.size());
+    SpanReader sr(bytes); BitStreamReader<SpanReader> br(sr); xBR xr{bytes.data(), 0}; for (auto x : xs) { uint64_t y = GolombRiceDecode(br, P), xy = xc_GolombRiceDecode(&xr, P); if (y != xy) DIS("GolombRiceDecode"); if (y != x) BAD("GolombRiceDecode(GolombRiceEncode(%llu), P=%u) = %llu", (unsigned long long)x, P, (unsigned long long)y); }
+}
 int main(int argc, char** argv)
 {
     auto a = rv::parse(argc, argv); rv::Rng r(a.seed); uint64_t n = a.diff ? a.n : 3000;
@@ -27,6 +41,7 @@ int main(int argc, char** argv)
             for (const auto& kk : keys) { bool c = f.contains(kk); if (before.nh <= 50) { for (unsigned i = 0; i < after.nh; i++) g_hash[i] = after.data.empty() ? 0 : MurmurHash3(i * 0xFBA4C795 + after.tweak, kk) % (after.data.size() * 8); xFilter xq{after.data.data(), after.data.size(), after.nh, after.tweak, after.flags}; if (c != xc_CBloomFilter_contains(&xq)) DIS("contains"); }
                 rv::g_stats.inputs++; if (!c) BAD("false negative: a key of %zu bytes inserted %zu inserts ago is not matched (filter of %zu bytes, %u hash functions)", kk.size(), keys.size(), after.data.size(), after.nh); } }
     }
+    for (uint64_t it = 0; it < n * 4; it++) test_golomb(r);
     rv::report();
     return rv::g_stats.real_violations ? 1 : (rv::g_stats.disagreements ? 3 : 0);
 }
